@@ -240,9 +240,25 @@ func (s *sim) txnReads(what string, txn *part.Txn[uint64], tm map[string]uint64,
 		s.logf("%s verify", what)
 		s.verifyOps(what, txn, tm, 3)
 	case 6:
-		s.logf("%s all", what)
+		// half of the time the loop body writes to the transaction it iterates: All iterates the contents at the time of the call
+		writes := 0
+		if s.rng.IntN(2) == 0 {
+			writes = 1 + s.rng.IntN(3)
+		}
+		s.logf("%s all (writes inside the loop: %d)", what, writes)
 		var got []entry
-		txn.All(func(k []byte, v uint64) bool { got = append(got, entry{string(k), v}); return true })
+		txn.All(func(k []byte, v uint64) bool {
+			got = append(got, entry{string(k), v})
+			if writes > 0 && !s.failed && s.rng.IntN(len(all)) < 3 {
+				writes--
+				wk := s.genKey()
+				if s.rng.IntN(2) == 0 {
+					wk = []byte(all[s.rng.IntN(len(all))].K) // an existing key: often the one just yielded or one still to come
+				}
+				s.applyWrite(what+" in-loop", txn, tm, ts, s.rng.IntN(6), wk)
+			}
+			return true
+		})
 		if !eqEntries(got, all) {
 			s.violate(true, "contents/txn-all", "%s All: got [%s] want [%s]", what, fmtEntries(got), fmtEntries(all))
 		}
